@@ -6,6 +6,8 @@ CFG = {
         'bmtree.PathToIndex': 'bmtree.PathToIndex (release build)',
         'bmtree.PathToIndex/debug': 'bmtree.PathToIndex (-tags debug build, contracts active)',
         'bmtree.PathToIndexLoose/debug-raw': 'bmtree.PathToIndexLoose on RAW (int32, uint64) arguments, -tags debug build only',
+        'bmtree.PathToIndexLoose/child': 'bmtree.PathToIndexLoose on a node and on one of its children (release build)',
+        'bmtree.PathToIndexLoose/child/debug': 'bmtree.PathToIndexLoose on a node and on one of its children (-tags debug build)',
         'bmtree.PathToIndex/debug-raw': 'bmtree.PathToIndex on RAW (int32, uint64) arguments, -tags debug build only'},
  # two harness builds; every case runs on both. In the debug build github.com/openacid/must is active,
  # a contract panic is observed as P and rejected by the specification.
@@ -20,6 +22,8 @@ CFG = {
          'search bit below the mask / above the height, hole in the mask, node level removed from T, T = 0 / negative / shifted / extreme, random word); '
          'the contracts must fire exactly outside the domain (decode_word of Spec/ContractSpec.v), inside it the value is the rank; '
          'on the contract gap (empty mask half under non-zero search bits) only model = implementation is compared; '
+         'WIDENING (ops */child): a node and one child in one case — every T in [2,2^6) x every inner node x both children, random heights 1..30; '
+         'the child pair must follow from the parent pair by the child rule (left child: next index; right child: after T>>(|q|+1) nodes); '
          'non-trivial = not the root and at least one stored node precedes it; distinct = distinct (op,args,build)',
  'assumptions': ['1 <= bitmapSize < 2^31 (int32, height <= 30)', '|q| <= Height(bitmapSize)',
                  'PathToIndex is only claimed (and only called) for nodes on a stored level',
